@@ -2145,9 +2145,10 @@ package leveldb
 // before the end leaves it before the start.
 //@ ghost var gRawOK bool
 //@ func (*dbIter).Seek
-//@   props C02 C03
+//@   props C02 C03 C18
 //@   abstract keys
 //@   safety off
+//@   ensures [C02,C18:a-released-iterator-reports-that-it-was-released] (old(i.err) == nil && old(i.dir) == dirReleased) ==> (!result && i.err == ErrIterReleased)
 //@   requires i.seq <= keyMaxSeq
 //@   at before call iterator.IteratorSeeker.Seek#1
 //@     assert [C02,C03:source-sought-at-the-target-and-the-iterators-sequence] kcmp(ukeyof(arg0), key) == 0 && numof(arg0) == i.seq * 256 + keyTypeSeek
@@ -2157,18 +2158,20 @@ package leveldb
 //@     ghost gRawOK = true
 //@   ensures [C02,C03:nothing-at-or-after-the-target-is-the-end] (old(i.err) == nil && old(i.dir) != dirReleased && !gRawOK) ==> (!result && i.dir == dirEOI)
 //@ func (*dbIter).First
-//@   props C02
+//@   props C02 C18
 //@   abstract keys
 //@   safety off
+//@   ensures [C02,C18:a-released-iterator-reports-that-it-was-released] (old(i.err) == nil && old(i.dir) == dirReleased) ==> (!result && i.err == ErrIterReleased)
 //@   at call iterator.IteratorSeeker.First#1
 //@     ghost gRawOK = result
 //@   at entry
 //@     ghost gRawOK = true
 //@   ensures [C02:empty-source-is-the-end] (old(i.err) == nil && old(i.dir) != dirReleased && !gRawOK) ==> (!result && i.dir == dirEOI)
 //@ func (*dbIter).Last
-//@   props C02
+//@   props C02 C18
 //@   abstract keys
 //@   safety off
+//@   ensures [C02,C18:a-released-iterator-reports-that-it-was-released] (old(i.err) == nil && old(i.dir) == dirReleased) ==> (!result && i.err == ErrIterReleased)
 //@   at call iterator.IteratorSeeker.Last#1
 //@     ghost gRawOK = result
 //@   at entry
@@ -2178,15 +2181,17 @@ package leveldb
 // C02 (relative moves at the ends): stepping forward at the end stays at the end, stepping backward before the start
 // stays before the start, and neither touches the source.
 //@ func (*dbIter).Next
-//@   props C02
+//@   props C02 C18
 //@   abstract keys
 //@   safety off
+//@   ensures [C02,C18:a-released-iterator-reports-that-it-was-released] (old(i.err) == nil && old(i.dir) == dirReleased) ==> (!result && i.err == ErrIterReleased)
 //@   ensures [C02:next-at-the-end-stays-at-the-end] old(i.dir) == dirEOI ==> (!result && i.dir == dirEOI && i.err == old(i.err))
 //@   ensures [C02:a-failed-iterator-does-not-move] old(i.err) != nil ==> (!result && i.dir == old(i.dir) && i.err == old(i.err))
 //@ func (*dbIter).Prev
-//@   props C02
+//@   props C02 C18
 //@   abstract keys
 //@   safety off
+//@   ensures [C02,C18:a-released-iterator-reports-that-it-was-released] (old(i.err) == nil && old(i.dir) == dirReleased) ==> (!result && i.err == ErrIterReleased)
 // (a turn from forward to backward first leaves the entries of the key under the cursor - under the configured
 // comparer, not the bytewise one - before the backward step proper looks for the predecessor)
 //@   at before stmt goto cont
